@@ -84,9 +84,27 @@ ExpectedSingle(k, a) ==
     [] k = "case2"   -> IF a[1].v = 1 THEN [ticks |-> L(<<1, 2>>), v |-> MkInt(12)]
                         ELSE IF a[1].v = 3 THEN [ticks |-> L(<<1, 3>>), v |-> MkInt(13)]
                         ELSE [ticks |-> L(<<1>>), v |-> Unspec]
+    [] k = "case1e"  -> [ticks |-> L(<<1, 2>>), v |-> MkInt(12)]
+    [] k = "case1"   -> IF a[1].v \in {1, 3} THEN [ticks |-> L(<<1, 2>>), v |-> MkInt(12)] ELSE [ticks |-> L(<<1>>), v |-> Unspec]
+    [] k = "case1a"  -> IF a[1].v \in {1, 3} THEN [ticks |-> L(<<1, 8, 9>>), v |-> MkList(<<a[1]>>)] ELSE [ticks |-> L(<<1>>), v |-> Unspec]
+    [] k = "case1ea" -> [ticks |-> L(<<1, 8, 9>>), v |-> MkList(<<a[1]>>)]
+    [] k = "cond1"   -> IF T(a[1]) THEN [ticks |-> L(<<1, 2>>), v |-> MkInt(12)] ELSE [ticks |-> L(<<1>>), v |-> Unspec]
+    [] k = "cond1t"  -> IF T(a[1]) THEN [ticks |-> L(<<1>>), v |-> a[1]] ELSE [ticks |-> L(<<1>>), v |-> Unspec]
+    [] k = "cond1a"  -> IF T(a[1]) THEN [ticks |-> L(<<1, 8, 9>>), v |-> MkList(<<a[1]>>)] ELSE [ticks |-> L(<<1>>), v |-> Unspec]
+    [] k = "cond1e"  -> [ticks |-> L(<<1, 2>>), v |-> MkInt(12)]
+    [] k = "and0"    -> [ticks |-> <<>>, v |-> True]
+    [] k = "and1"    -> [ticks |-> L(<<1>>), v |-> a[1]]
+    [] k = "or0"     -> [ticks |-> <<>>, v |-> False]
+    [] k = "or1"     -> [ticks |-> L(<<1>>), v |-> a[1]]
+    [] k = "when1"   -> IF T(a[1]) THEN [ticks |-> L(<<1, 2>>), v |-> MkInt(12)] ELSE [ticks |-> L(<<1>>), v |-> Unspec]
+    [] k = "unless1" -> IF ~T(a[1]) THEN [ticks |-> L(<<1, 2>>), v |-> MkInt(12)] ELSE [ticks |-> L(<<1>>), v |-> Unspec]
+    [] k = "begin1"  -> [ticks |-> L(<<1>>), v |-> MkInt(11)]
+    [] k = "let0"    -> [ticks |-> L(<<1, 2>>), v |-> MkInt(12)]
+    [] k = "letstar0" -> [ticks |-> L(<<1>>), v |-> MkInt(11)]
+    [] k = "letstar1" -> [ticks |-> L(<<1, 2>>), v |-> MkList(<<MkInt(11), MkInt(12)>>)]
 SingleLaw ==
   (Done /\ Family \in {"derived-quick", "derived-full"} /\ FamSeq[pid].tag[1] = "single") =>
-     \E k \in KindSet : \E a \in Assignments(k) :
+     \E k \in KindSet \cup SmallKinds : \E a \in Assignments(k) :
         /\ FamSeq[pid].tag[2] = k
         /\ FamSeq[pid].forms[1] = InContext(FamSeq[pid].tag[3], Single(k, 0, a))
         /\ LET e == ExpectedSingle(k, a) IN
